@@ -1,5 +1,6 @@
 """Module-level worker functions (run in fresh processes by vf.pool)."""
 
+import json
 import traceback
 
 
@@ -117,6 +118,111 @@ def _mk_classes(par):
         bases = tuple(classes[p] for p in ps) or (object,)
         classes.append(type(f"K{c}", bases, {"__module__": "vfworld"}))
     return classes
+
+
+def rawtable_cases(jobs):
+    """Random histories on the public MultiTypeMap itself whose signatures use
+    hook-defined types (value-dependent types, unions, class predicates) next
+    to plain classes.  job = {id, par, menu:[{pos:[term], prio}], steps:[
+    {op:'register', mi} | {op:'get', key:[cls], vals:[int]}]}.  Every lookup is
+    repeated on a brand-new table built from the methods registered so far;
+    a handler that is a generated value dispatcher is called with the values."""
+    from ovld import Dependent, class_check
+    from ovld.core import Signature
+    from ovld.typemap import MultiTypeMap
+    from ovld.types import Union as OUnion
+
+    def key_error(key, poss=None):
+        return TypeError("Ambiguous resolution" if poss else "No method")
+
+    out = []
+    for job in jobs:
+        try:
+            classes = _mk_classes(job["par"])
+            cache = {}
+
+            def mk_type(t):
+                k = json.dumps(t, sort_keys=True)
+                if k in cache:
+                    return cache[k]
+                if t["k"] == "cls":
+                    r = classes[t["c"]]
+                elif t["k"] == "dep":
+                    def mk_chk(thr):
+                        def chk(value):
+                            return getattr(value, "v", 0) >= thr
+
+                        return chk
+
+                    chk = mk_chk(t["thr"])
+
+                    r = Dependent[classes[t["c"]], chk]
+                elif t["k"] == "union":
+                    r = OUnion[tuple(mk_type(a) for a in t["args"])]
+                elif t["k"] == "check":
+                    members = frozenset(classes[m] for m in t["members"])
+                    r = class_check(lambda cls, _m=members: cls in _m)
+                else:
+                    raise ValueError(t)
+                cache[k] = r
+                return r
+
+            def mk_sig(m):
+                types = tuple(mk_type(t) for t in m["pos"])
+                return Signature(types=types, return_type=object, req_pos=len(types), max_pos=len(types),
+                                 req_names=frozenset(), vararg=False, priority=m["prio"], tiebreak=0, is_method=False)
+
+            def mk_handler(j):
+                ns = {}
+                exec(f"def h{j}(*a, **k):\n    return {j}\n", ns)
+                return ns[f"h{j}"]
+
+            def lookup(mtm, handlers, key, vals):
+                try:
+                    h = mtm[tuple(classes[c] for c in key)]
+                except TypeError as e:
+                    return {"kind": "ambiguous" if str(e).startswith("Ambiguous") else "nomethod", "entered": [], "ret": ""}
+                except Exception as e:  # noqa
+                    return {"kind": "internal", "entered": [], "ret": f"{type(e).__name__}: {e}"[:200]}
+                try:
+                    args = []
+                    for c, v in zip(key, vals):
+                        a = classes[c]() if classes[c] is not object else object()
+                        if classes[c] is not object:
+                            a.v = v
+                        args.append(a)
+                    r = h(*args)
+                    return {"kind": "run", "entered": [{"m": f"h{r}"}], "ret": ""}
+                except TypeError as e:
+                    return {"kind": "ambiguous" if str(e).startswith("Ambiguous") else "nomethod", "entered": [], "ret": ""}
+                except Exception as e:  # noqa
+                    return {"kind": "internal", "entered": [], "ret": f"{type(e).__name__}: {e}"[:200]}
+
+            mtm = MultiTypeMap(name="T", key_error=key_error)
+            handlers, regs, steps = [], [], []
+            for st in job["steps"]:
+                if st["op"] == "register":
+                    m = job["menu"][st["mi"]]
+                    h = mk_handler(len(handlers) + 1)
+                    handlers.append(h)
+                    regs.append(m)
+                    mtm.register(mk_sig(m), h)
+                    steps.append({"op": "register", "m": f"h{len(handlers)}"})
+                else:
+                    obs = lookup(mtm, handlers, st["key"], st["vals"])
+                    fresh_t = MultiTypeMap(name="T", key_error=key_error)
+                    for m, h in zip(regs, handlers):
+                        fresh_t.register(mk_sig(m), h)
+                    fr = lookup(fresh_t, handlers, st["key"], st["vals"])
+                    steps.append({"op": "call", "call": {"key": st["key"], "vals": st["vals"]}, "obs": obs, "fresh": fr,
+                                  "fresh_methods": [f"h{j}" for j in range(1, len(handlers) + 1)],
+                                  "counts": {"user": 0, "tm_miss": 0, "mtm_miss": 0, "plain_miss": 0}})
+            out.append({"id": job["id"], "props": ["C05"], "steps": steps, "job": job})
+        except Exception as e:  # noqa
+            import traceback
+
+            out.append({"id": job["id"], "skip": "harness: " + traceback.format_exc()[-600:]})
+    return out
 
 
 def table_replay(jobs):
@@ -568,7 +674,9 @@ def graph_replay(jobs):
                     try:
                         g.nodes[n].unregister(g.fns[o["m"]])
                         rec["out"] = "ok"
-                        g.own[n] = {k: v for k, v in g.own[n].items() if v != o["m"]}
+                        kept = {k: v for k, v in g.own[n].items() if v != o["m"]}
+                        # the gap in the signature's chain is closed (Ovld.tla DropClose)
+                        g.own[n] = {(s, -sum(1 for (s2, r2) in kept if s2 == s and r2 > r)): v for (s, r), v in kept.items()}
                     except Exception as e:
                         if "locked" not in str(e):
                             raise
